@@ -46,6 +46,38 @@ type glog struct {
 	wakes int
 	runs  int
 	clk   *vclock
+	// park: the scheduler goroutine calls the Logger synchronously; the next record of kind
+	// parkKind is added to the log and then the caller (the scheduler) is held inside Info until
+	// ReleasePark - a hook-free seam in the MIDDLE of an event (Info("wake"): tick consumed, no
+	// job started yet; Info("run"): after the first job of the wake-up has been started;
+	// Info("start"): Start's goroutine before it computes the Next values).
+	parkKind  string
+	parked    bool
+	parkedIdx int
+	parkCh    chan struct{}
+}
+
+func (g *glog) ArmPark(kind string) {
+	g.mu.Lock()
+	g.parkKind = kind
+	g.mu.Unlock()
+}
+
+// Parked: is the scheduler held inside a logger call? (and the log index of that record)
+func (g *glog) Parked() (bool, int) {
+	g.mu.Lock()
+	defer g.mu.Unlock()
+	return g.parked, g.parkedIdx
+}
+
+func (g *glog) ReleasePark() {
+	g.mu.Lock()
+	g.parkKind = ""
+	if g.parked {
+		g.parked = false
+		close(g.parkCh)
+	}
+	g.mu.Unlock()
 }
 
 const logCap = 20000
@@ -60,6 +92,14 @@ func (g *glog) add(r rec) {
 		g.wakes++
 	case "run":
 		g.runs++
+	}
+	if g.parkKind != "" && g.parkKind == r.kind {
+		g.parkKind, g.parked, g.parkedIdx = "", true, len(g.recs)-1
+		ch := make(chan struct{})
+		g.parkCh = ch
+		g.mu.Unlock()
+		<-ch
+		return
 	}
 	g.mu.Unlock()
 }
